@@ -36,7 +36,7 @@ func register(f *family) { families[f.name] = f }
 // An oracle checks a property statement directly on the real code.
 type oracleFailure struct {
 	Property  string      `json:"property"`
-	Signature string      `json:"signature,omitempty"` // stable id of the kind of failure (known_findings.json)
+	Signature string      `json:"signature,omitempty"`
 	What      string      `json:"what"`
 	Family    string      `json:"family,omitempty"`
 	Case      string      `json:"case,omitempty"`
@@ -55,11 +55,19 @@ type oracle struct {
 	prop string
 	name string
 	run  func(r *rng, n int, st *oracleStats) []oracleFailure
+	// replay re-checks one stored failure on the real code (optional)
+	replay func(f oracleFailure) []oracleFailure
 }
 
 var oracles = map[string][]*oracle{}
 
 func registerOracle(o *oracle) { oracles[o.prop] = append(oracles[o.prop], o) }
+
+// A replayer re-executes the input of a recorded oracle failure on the real
+// code and reports (text, whether a failure with the same signature recurs).
+var replayers = map[string]func(f oracleFailure) (string, bool){}
+
+func registerReplayer(prop string, fn func(f oracleFailure) (string, bool)) { replayers[prop] = fn }
 
 // runGuarded runs a case with panic capture and a watchdog.
 func runGuarded(f *family, c *sx, timeout time.Duration) string {
@@ -119,6 +127,56 @@ func main() {
 		fmt.Println(runGuarded(f, c, 20*time.Second))
 	case "oracle":
 		cmdOracle(*prop, *seed, *n, *out)
+	case "oracle-replay":
+		// -case is the JSON of an oracleFailure.  Oracles that can re-check a
+		// stored failure do so (STILL-FAILS lines carry the signature); failures
+		// that name a model-free family and a case are re-executed through it.
+		var f oracleFailure
+		if err := json.Unmarshal([]byte(*cs), &f); err != nil {
+			fmt.Fprintln(os.Stderr, "bad failure json:", err)
+			os.Exit(2)
+		}
+		found, tried := 0, 0
+		for _, o := range oracles[*prop] {
+			if o.replay == nil {
+				continue
+			}
+			tried++
+			for _, g := range o.replay(f) {
+				b, _ := json.Marshal(g)
+				fmt.Println("STILL-FAILS", string(b))
+				found++
+			}
+		}
+		if fm := families[f.Family]; found == 0 && fm != nil && f.Case != "" && fm.classify == nil && f.Family != "api" {
+			c, err := parseSx(f.Case)
+			if err != nil {
+				fmt.Fprintln(os.Stderr, "bad case:", err)
+				os.Exit(2)
+			}
+			tried++
+			obs := runGuarded(fm, c, 60*time.Second)
+			fmt.Println("case:    ", f.Case)
+			fmt.Println("expected:", f.Signature, f.What)
+			fmt.Println("observed:", obs)
+			if strings.HasPrefix(obs, "FAIL") || obs == "PANIC" || obs == "HANG" {
+				sig := f.Signature
+				if parts := strings.Fields(obs); len(parts) > 1 && strings.HasPrefix(parts[1], "C") && strings.Contains(parts[1], ":") {
+					sig = parts[1]
+				}
+				b, _ := json.Marshal(oracleFailure{Property: *prop, Signature: sig, What: obs, Family: f.Family, Case: f.Case})
+				fmt.Println("STILL-FAILS", string(b))
+				found++
+			}
+		}
+		if found > 0 {
+			os.Exit(1)
+		}
+		if tried == 0 {
+			fmt.Println("not replayable:", *cs)
+			os.Exit(2)
+		}
+		fmt.Println("no failure reproduced on the current tree")
 	case "coqcases":
 		cmdCoqCases(*in, *k, *out)
 	case "families":
